@@ -491,7 +491,7 @@ impl WhenCalledBuilder<'_> {
     /// ```
     pub fn will_return_boolean(self, value: bool) {
         // Ensure the target function returns a bool
-        if !self.expected_signature.trim().ends_with("-> bool") {
+        if return_type_of(self.expected_signature) != Some("bool") {
             panic!(
                 "Signature mismatch: will_return_boolean requires a function returning bool but got {}",
                 self.expected_signature
@@ -501,6 +501,33 @@ impl WhenCalledBuilder<'_> {
         let guard = self.when.will_return_boolean_guard(value);
         self.lib.guards.push(guard);
     }
+}
+
+/// Extracts the top-level return type from a function pointer type name such as
+/// `unsafe extern "C" fn(i32, fn() -> u8) -> bool`.
+///
+/// The return type is what follows the `->` after the parenthesis closing the outermost
+/// parameter list, so nested function types in parameters or in the return type itself
+/// (`fn() -> fn() -> bool`) are not mistaken for it.
+fn return_type_of(signature: &str) -> Option<&str> {
+    let signature = signature.trim();
+    let open = signature.find('(')?;
+    let mut depth = 0usize;
+    for (i, c) in signature[open..].char_indices() {
+        match c {
+            '(' => depth += 1,
+            ')' => {
+                depth -= 1;
+                if depth == 0 {
+                    let rest = signature[open + i + 1..].trim();
+                    return rest.strip_prefix("->").map(str::trim);
+                }
+            }
+            _ => {}
+        }
+    }
+
+    None
 }
 
 pub struct WhenCalledBuilderAsync<'a> {
